@@ -480,7 +480,11 @@ pub fn covering_owners(n: usize) -> Vec<Vec<Owner>> {
 /// covering set), planner-relevant depth 2 on families 0,1 with 4 owner vectors and 3 output subsets.
 /// thorough: depth 1 full cross everywhere, planner-relevant depth 2 full cross everywhere.
 pub fn generated_programs(r: &Report) -> Vec<Prog> {
-    let thorough = r.tier.thorough();
+    generated_programs_tier(r, r.tier.thorough())
+}
+
+/// the program space of the given tier (C02's thorough tier executes the quick space with a deeper budget)
+pub fn generated_programs_tier(r: &Report, thorough: bool) -> Vec<Prog> {
     let mut progs = vec![];
     let mut seen: HashSet<String> = HashSet::new();
     for (fi, leaves) in gen::families(thorough).into_iter().enumerate() {
